@@ -815,7 +815,7 @@ pub(crate) fn check_if_response_is_matched(
                 last_number.saturating_sub(start_number) <= last_n_blocks as BlockNumber;
             if requires_all_blocks {
                 if first_last_n_header_number != start_number
-                    || last_last_n_header_number + 1 != last_number
+                    || last_last_n_header_number.checked_add(1) != Some(last_number)
                 {
                     let errmsg = format!(
                 "there should be all blocks of [{}, {}) since no sampled blocks, but got [{}, {}]",
@@ -824,7 +824,9 @@ pub(crate) fn check_if_response_is_matched(
                     return Err(StatusCode::MalformedProtocolMessage.with_context(errmsg));
                 }
             } else {
-                if last_n_count < last_n_blocks || last_last_n_header_number + 1 != last_number {
+                if last_n_count < last_n_blocks
+                    || last_last_n_header_number.checked_add(1) != Some(last_number)
+                {
                     let errmsg = format!(
                         "there should be at least last {} blocks before block#{} \
                         since no sampled blocks, but got [{}, {}]",
@@ -859,7 +861,7 @@ pub(crate) fn check_if_response_is_matched(
         // The last n headers should be ended at the parent of the last header.
         let last_last_n_header_number = headers[headers.len() - 1].header().number();
         let last_number = last_header.header().number();
-        if last_last_n_header_number + 1 != last_number {
+        if last_last_n_header_number.checked_add(1) != Some(last_number) {
             let errmsg = format!(
                 "the last n headers should be ended at block#{} but got block#{}",
                 last_number.saturating_sub(1),
